@@ -115,6 +115,10 @@ def cmd_check(argv):
     sw = runner.Sweep(prop, tier, base_seed, procs)
 
     known = runner.load_known(prop)
+    if os.environ.get('VERIF_IGNORE_KNOWN'):
+        # maintenance only: report listed findings as ordinary violations so that fresh replay files get written
+        # (used to refresh /verif/findings/*.json after the harness changed); never set by a registered command
+        known = []
     known_lines = []
     known_sigs = {}
     for e in known:
